@@ -15,7 +15,7 @@ import ast
 from sa.values import *
 from sa.lin import Lin, intern_sym
 from sa.interp_expr import SLICE_INFO
-from sa.model import AnalysisError
+from sa.model import AnalysisError, norm_text
 from .common import world, pmap, short, configs_for
 
 BUF = ("param", "string")
@@ -465,6 +465,82 @@ def run(chk):
                 chk.ob(rule, "%s: %s [%d return state(s)]" % (name, desc if rule == "R11.2" else cid + ": " + desc, n), ok, loc="der:" + name,
                        key="C11|%s|%s|%s" % (rule, name, cid), detail="%s: not established at every normal return: %s" % (name, desc))
     chk.floor("R11.2", "minimality obligations", sum(1 for o in chk.obligations if o[0] == "R11.2"), 10)
+    writer_number_octets(chk, world().p)
     chk.internal = sorted(internal)
     chk.extra["readers"] = [f.qname for f, _a, _b in readers]
     chk.extra["writer_tags"] = {k: sorted(map(str, v)) for k, v in wt.items()}
+
+
+# ---------------------------------------------------------------------------- R11.5
+_NUMBER_SOURCES = ("pack", "to_bytes", "unhexlify", "hexlify", "int2byte", "number_to_string", "encode")
+
+
+def _number_bytes_taint(fnode):
+    """names of locals (and the expressions themselves) that carry the big-endian octets of a number:
+    results of struct.pack / int.to_bytes / (un)hexlify / '%x' formatting, closed under
+    assignment, concatenation, slicing and method calls that keep the octets"""
+    tainted = set()
+
+    def carries(e):
+        if isinstance(e, ast.Name):
+            return e.id in tainted
+        if isinstance(e, ast.Call):
+            f = e.func
+            last = f.attr if isinstance(f, ast.Attribute) else f.id if isinstance(f, ast.Name) else ""
+            if last in _NUMBER_SOURCES:
+                return True
+            if isinstance(f, ast.Attribute) and carries(f.value):
+                return True
+            return any(carries(a) for a in e.args)
+        if isinstance(e, ast.BinOp):
+            if isinstance(e.op, ast.Mod) and isinstance(e.left, ast.Constant) and isinstance(e.left.value, (str, bytes)) and ("%x" in str(e.left.value) or "%02x" in str(e.left.value)):
+                return True
+            return carries(e.left) or carries(e.right)
+        if isinstance(e, ast.Subscript):
+            return carries(e.value)
+        if isinstance(e, ast.IfExp):
+            return carries(e.body) or carries(e.orelse)
+        return False
+
+    for _i in range(4):
+        for n in ast.walk(fnode):
+            if isinstance(n, ast.Assign) and carries(n.value):
+                for t in n.targets:
+                    for x in ast.walk(t):
+                        if isinstance(x, ast.Name):
+                            tainted.add(x.id)
+            if isinstance(n, ast.AugAssign) and carries(n.value) and isinstance(n.target, ast.Name):
+                tainted.add(n.target.id)
+    return carries
+
+
+def two_sided_strips(fnode):
+    """calls X.strip(...) / X.rstrip(...) on the octets of a number: the trailing octets of a
+    big-endian number are significant (only leading zero octets may be dropped: lstrip)"""
+    carries = _number_bytes_taint(fnode)
+    out = []
+    for n in ast.walk(fnode):
+        if isinstance(n, ast.Call) and isinstance(n.func, ast.Attribute) and n.func.attr in ("strip", "rstrip") and carries(n.func.value):
+            out.append(n)
+    return out
+
+
+_R115_POSITIVE = "def f(l):\n    s = struct.pack('>Q', l).strip(b'\\x00')\n    return int2byte(128 | len(s)) + s\n"
+_R115_NEGATIVE = "def f(l):\n    s = struct.pack('>Q', l).lstrip(b'\\x00')\n    return int2byte(128 | len(s)) + s\n"
+
+
+def writer_number_octets(chk, p):
+    chk.rule("R11.5", "DER writers never drop trailing octets of a big-endian number (no strip()/rstrip() on packed / hexlified number octets; leading zeros only via lstrip or arithmetic)")
+    # the matcher must fire on its built-in positive example and stay silent on the negative one
+    if not two_sided_strips(ast.parse(_R115_POSITIVE)) or two_sided_strips(ast.parse(_R115_NEGATIVE)):
+        raise AnalysisError("R11.5 self-test of the matcher failed")
+    m = p.modules["der"]
+    n = 0
+    for qual, f in sorted(m.funcs.items()):
+        if not qual.startswith("encode_") and qual not in ("int2byte",):
+            continue
+        n += 1
+        hits = two_sided_strips(f.node)
+        chk.ob("R11.5", "%s: no strip()/rstrip() on the octets of a number" % qual, not hits, loc=p.loc("der", hits[0]) if hits else f.qname, key="C11|R11.5|%s" % qual,
+               detail="%s applies %s to the big-endian octets of a number: trailing zero octets are significant (a length such as 0x10000 is written as 81 01, 0x18000 as 82 01 80); only leading zeros may be dropped" % (qual, norm_text(hits[0])[:80] if hits else ""))
+    chk.floor("R11.5", "DER encoders", n, 6)
